@@ -453,7 +453,7 @@ func MavenSpaces() []*Space {
 
 // ---------------- PyPI ----------------
 
-var PyPIReqs = []string{"==1.0", ">=1.0", "<2.0", "!=1.0", "~=1.0", ">=2.0rc1", ""}
+var PyPIReqs = []string{"==1.0", ">=1.0", "<2.0", "!=1.0", "~=1.0", ">=2.0rc1", "", ">3.0"}
 
 // PyPISat: specifier -> satisfying versions of {1.0, 2.0, 3.0rc1} as intervals; pip's prerelease rule is applied by the oracle.
 var PyPISat = map[string]map[string]bool{
@@ -464,6 +464,7 @@ var PyPISat = map[string]map[string]bool{
 	"~=1.0":    {"1.0": true},
 	">=2.0rc1": {"2.0": true, "3.0rc1": true},
 	"":         {"1.0": true, "2.0": true, "3.0rc1": true},
+	">3.0":     {},
 }
 
 // PyPIMarkers: marker decorations with their truth as a function of the requested extras (hand table).
@@ -525,7 +526,17 @@ func PyPISpaces() []*Space {
 		{vi("b", "1.0"), Req{Pkg: "c", Ver: ">=1.0"}},
 		{vi("c", "1.0"), Req{Pkg: "a", Ver: ">=1.0", Env: `extra == "x"`}},
 	}
-	return []*Space{newSpace(d, "empty", nil), newSpace(d, "conflict", conflict)}
+	// extras: c is requested with extra y by the root and with extra x by b@2.0, a candidate that cannot be
+	// installed (its requirement on the root has no match); c@2.0 has a requirement guarded by each extra
+	extras := []tmplReq{
+		{vi("r", "1.0"), Req{Pkg: "b", Ver: ""}},
+		{vi("r", "1.0"), Req{Pkg: "c", Ver: "", Extras: "y"}},
+		{vi("b", "2.0"), Req{Pkg: "c", Ver: "", Extras: "x"}},
+		{vi("b", "2.0"), Req{Pkg: "r", Ver: ">3.0"}}, // listed after c: the candidate fails after its request on c was merged
+		{vi("c", "2.0"), Req{Pkg: "a", Ver: ">=1.0", Env: `extra == "x"`}},
+		{vi("c", "2.0"), Req{Pkg: "b", Ver: ">=1.0", Env: `extra == "y"`}},
+	}
+	return []*Space{newSpace(d, "empty", nil), newSpace(d, "conflict", conflict), newSpace(d, "extras", extras)}
 }
 
 // AllSpaces lists every family.
